@@ -357,4 +357,19 @@ example : project (c07_emp 0) 0 {} (-2) 10 (some (1, 9)) none none none [(0, 0),
 example : projValidStart (c07_emp 0) 1 10 (some (12, 20)) 2 [(0, (0 : Int)), (1, 5), (3, 6), (5, 7)] = true ∧
     projStartOk (some (12, 20)) (some 2) [(0, (0 : Int)), (1, 5), (3, 6), (5, 7)] = true := by decide
 
+/-- prune: a legal, valid shortcut over an explicit default; an uncompressed rank within its active range -/
+example : startLegal (some 1) [(0, (0 : Int)), (2, 5), (4, 6)] = true ∧
+    validStart (c07_emp 0) none none 1 [(0, (0 : Int)), (2, 5), (4, 6)] = true := by decide
+example : withinActive (c07_emp 0) { fmt := .U, shape := some 4 } [(0, (0 : Int)), (1, 5), (3, 6)] = true := by decide
+#guard (match prune (c07_emp 0) 0 { fmt := .U, shape := some 4 } (fun i _ _ => i % 2 == 1) none none none
+          [(0, 0), (1, 5), (3, 6)] with | .ok l => l == [(1, (some 1, 5)), (3, (some 2, 6))] | _ => false)
+#guard (match project (c07_emp 0) 0 { fmt := .U, shape := some 4 } 2 1 (some (2, 8)) none none none
+          [(0, 0), (1, 5), (3, 6)] with | .ok l => l == [(3, (some 1, 5)), (7, (some 2, 6))] | _ => false)
+/-- fromLazy: a well-formed depth-2 list of yields with an empty sub-fiber and an explicit default -/
+private def c07_ys : Tree Int Int 2 := [(1, [(0, (0 : Int)), (2, (5 : Int))]), (4, [])]
+private def c07_mat : Tree Int Int 2 := [(1, [(2, (5 : Int))])]
+example : WF 2 c07_ys := (wfB_iff 2 c07_ys).1 (by decide)
+#guard fiberEq 0 0 2 (fromLazy (0 : Int) 1 c07_ys) c07_mat && fiberEq 0 0 2 (fromLazy (0 : Int) 1 c07_ys) c07_ys
+#guard canonicalB 0 2 (fromLazy (0 : Int) 1 c07_ys)
+
 end Ft
